@@ -15,9 +15,9 @@
       is MET by the real core handlers and the real settlement.
   (d) `c11_ledger_combined`: the C11 ledger invariant for all combined histories: every subaccount address holds at
       least Deposited − Withdrawn − Spent − Lost, no component is negative, the two maps are mutually inverse.
-  Not proved here (monitored by the suite `combined`, monitor `hooks_total`): that a hook never panics on a reachable
-  state (Unspend ≤ Spent for every participation of a subaccount), equality bank = available when nobody sent tokens
-  directly, and the lock bound (released ≤ unlocked); C11.lean proves the last two on the x/subaccount slice.
+  Proved in Properties/C11Combined.lean for all combined histories (and monitored by the suite `combined`, monitor
+  `hooks_total`): a hook never panics on a reachable state (Unspend ≤ Spent for every participation of a subaccount),
+  equality bank = available when nobody sent tokens directly, the lock bound (released ≤ unlocked), supply constant.
 -/
 import SgeProofs.Lemmas.CombinedLedgerStep
 import SgeProofs.Properties.C01
